@@ -1,6 +1,6 @@
 (* Property C08 -- malformed peer input fails cleanly, promptly and within bounded memory.
    Statements only; proofs live in Proofs/ (hand models) and Gen/*Proof.v (generated proof
-   scripts for the regenerated crash models).  Synced to /repo 0a4bdcb. *)
+   scripts for the regenerated crash models).  Synced to /repo 79180d8. *)
 From Coq Require Import ZArith List Bool.
 From TV Require Import Base.Prelude Base.C08_Lib Model.C08_Known Gen.HrrShChecks Proofs.C08_HelloHrrSh
                        Gen.HrrChChecks Proofs.C08_HelloHrr
@@ -110,16 +110,16 @@ Proof. destruct hrr_sh_examples as (A & B & _ & _ & C & _). exact (conj A (conj 
 
 (* ---------------------------------------------------------------------------------------
    2. The error funnel (hand model of _getMsg / _getNextRecordFromSocket / _sendError /
-   _shutdown / readAsync / writeAsync / closeAsync / _handshakeWrapperAsync at /repo 0a4bdcb,
-   i.e. with the wrapper clauses of 6da5459 that turn TLSIllegalParameterException /
-   TLSDecodeError / TLSDecryptionFailed into alerts). *)
+   _shutdown / readAsync / writeAsync / closeAsync / _handshakeWrapperAsync at /repo 79180d8,
+   i.e. with the wrapper clause of 6da5459 / 0bc7834 that turns TLSIllegalParameterException /
+   TLSDecodeError / TLSDecryptionFailed into alerts and closes even when the alert cannot be
+   sent). *)
 (* C08 funnel: every handshake/read/write/close call that ends by raising leaves the
    connection closed, the socket closed (if closeSocket) and the session not resumable.
-   wf_event / unsendable_wrapper_alert exclude exactly the holes proved as hole_* below. *)
+   wf_event excludes exactly the holes proved as hole_* below. *)
 Theorem funnel_postcondition :
   forall ly dp a sf st r st',
     wf_event ly dp a = true ->
-    unsendable_wrapper_alert ly dp a sf = false ->
     funnel ly dp a sf st = (Raised r, st') ->
     closed st' = true
     /\ (close_socket st = true -> sock_closed st' = true)
@@ -165,6 +165,21 @@ Theorem handshake_direct_protocol_error_alerts :
     /\ (has_session st = true -> resumable st' = false)
     /\ documented E_TLSLocalAlert = true.
 Proof. exact Proofs.C08_Funnel.handshake_direct_protocol_error_alerts. Qed.
+
+(* since 0bc7834: when that alert cannot be sent the caller gets socket.error and the
+   connection is closed all the same (only the shutdown on the wire) *)
+Theorem wrapper_alert_unsendable_closes :
+  forall dp e d0 st o st' d,
+    is_pretry dp = false -> mapped_alert dp e = None -> wrapper_alert e = Some d ->
+    funnel LHandshake dp (ARaise e d0) true st = (o, st') ->
+    o = Raised (mkr E_SockError None)
+    /\ st' = shutdown false st
+    /\ wire st' = wire st ++ [WShutdown false]
+    /\ closed st' = true
+    /\ (close_socket st = true -> sock_closed st' = true)
+    /\ (has_session st = true -> resumable st' = false)
+    /\ documented E_SockError = true.
+Proof. exact Proofs.C08_Funnel.wrapper_alert_unsendable_closes. Qed.
 
 (* ... and these are exactly three classes (none of them has a subclass) *)
 Theorem wrapper_converts_exactly :
@@ -247,15 +262,6 @@ Proof. exact Proofs.C08_Funnel.other_layers_direct_protocol_error_no_alert. Qed.
 Theorem tls_protocol_exceptions_are_undocumented :
   forall e, subclass e E_TLSProtocolException = true -> documented e = false.
 Proof. exact protocol_exceptions_undocumented. Qed.
-
-(* new hole of 6da5459: the wrapper's own alert cannot be sent -> socket.error leaves the
-   wrapper from inside an except clause, state unchanged (nothing shut down) *)
-Theorem hole_wrapper_alert_unsendable :
-  forall dp e d0 st d,
-    is_pretry dp = false -> mapped_alert dp e = None -> wrapper_alert e = Some d ->
-    unsendable_wrapper_alert LHandshake dp (ARaise e d0) true = true
-    /\ funnel LHandshake dp (ARaise e d0) true st = (Raised (mkr E_SockError None), st).
-Proof. exact wrapper_alert_send_failure_leaves_open. Qed.
 
 Theorem hole_generator_exit :
   forall ly dp sf st,
@@ -354,13 +360,18 @@ Proof. exact ex_crash_attribute_error. Qed.
    the decompressor is an oracle with the ASSUMED contract "output never exceeds the limit";
    synced to /repo 0a4bdcb: ClientHello.parse rejects duplicate extension types after the loop
    (6da5459), the zlib path calls decompressobj(15).decompress(data, expected_length+1) and rejects
-   any leftover (e070e0f) -- the real zlib call now satisfies the contract). *)
+   any leftover (e070e0f) -- the real zlib call now satisfies the contract;
+   synced to /repo 79180d8: EncryptedExtensions.parse and CertificateRequest._parse_tls13 reject
+   duplicate extension types too (7769c7a) = parse_ext_list_nodup; the loops left WITHOUT a
+   duplicate test are NewSessionTicket.parse (= parse_ext_list) and the per-entry extension list of
+   CertificateEntry.parse (inside parse_cert_list)). *)
 (* Every parsing loop, run on ANY byte string bs with fuel |bs|+1, never returns Err OutOfFuel
    (each iteration strictly consumes input) and takes <= c*|bs|+c0 model steps.
    linear_work f c c0 := forall bs, bytes_ok bs ->
                            m_out (f bs) <> Err OutOfFuel /\ 0 <= m_steps (f bs) <= c * zlen bs + c0 *)
 Theorem parser_work_linear :
   linear_work parse_ext_list 1 4 /\
+  linear_work parse_ext_list_nodup 2 4 /\
   linear_work parse_client_hello_exts 8 13 /\
   linear_work parse_sni 2 5 /\
   linear_work parse_alpn 3 4 /\
@@ -400,6 +411,7 @@ Proof. exact loop_bodies_strictly_consume_all. Qed.
    decompressor is called with limit expected_length+1 and returns (output, stopped cleanly) *)
 Theorem alloc_bounded :
   linear_alloc parse_ext_list 2 1 /\
+  linear_alloc parse_ext_list_nodup 3 1 /\
   linear_alloc parse_client_hello_exts 5 3 /\
   linear_alloc parse_sni 2 1 /\
   linear_alloc parse_alpn 2 1 /\
@@ -483,6 +495,11 @@ Example work_client_hello_exts_example :
   parse_client_hello_exts [0;0;0;5;0;3;0;0;0; 0;16;0;5;0;3;2;104;50; 171;171;0;2;7;7]
   = (Ok [(0, [(0, [])]); (16, [(0, [104; 50])]); (43947, [(-3, [7; 7])])], 27, 42).
 Proof. exact client_hello_exts_example. Qed.
+Example work_ext_list_nodup_example :
+  parse_ext_list_nodup [171;171;0;1;7; 171;172;0;0] = (Ok [(43947, [7]); (43948, [])], 11, 13) /\
+  parse_ext_list_nodup [171;171;0;1;7; 171;171;0;0] = (Err DecodeError, 11, 13) /\
+  parse_ext_list [171;171;0;1;7; 171;171;0;0] = (Ok [(43947, [7]); (43947, [])], 9, 11).
+Proof. exact ext_list_nodup_example. Qed.
 Example work_client_hello_duplicate_example :
   parse_client_hello_exts [0;0;0;0; 171;171;0;0; 0;0;0;0] = (Err DecodeError, 16, 18).
 Proof. exact client_hello_duplicate_example. Qed.
